@@ -198,6 +198,14 @@ CLI = dict(harness="h_client.c", style="legacy", unwind=8, timeout=900)
 G(name="cli_namedec", entry="h_namedec", enforce=["dns_namedec"], props={"C09": "all", "C06": "safety"}, min_obl=10, cost=30, **CLI,
   what="client dns_namedec for every answer text of 1..1024 characters: letter h/i/j/k (host name) and t/s/u/v (TXT) select Base32/Base64/Base64u/Base128 - the codec the server used for that letter -, exactly the text between letter and suffix is decoded into the caller's buffer, r = raw copy, anything else decodes nothing; result within the output space")
 
+for ent, fns, what in (
+    ("h_qmem_data", ["save_to_qmem_pingordata", "save_to_qmem", "answer_from_qmem_data", "answer_from_qmem"], "query memory, data queries: the ring writer stores (type, 4 header characters lower-cased) in the next slot only; a re-delivered copy with any letter case and any DNS id is recognised by answer_from_qmem_data: one illegal answer, query consumed, nothing else touched"),
+    ("h_qmem_lookup", ["answer_from_qmem"], "answer_from_qmem on the ping and data memories: hit = one illegal 1-byte answer + query consumed, miss = nothing emitted and no slot (arbitrary ghost slot) matched"),
+    ("h_dnscache", ["save_to_dnscache", "answer_from_dnscache"], "answer cache: ring of 4; an identical repeat (same type, strcmp-equal name, any DNS id) is answered exactly once with the stored bytes and length, nothing else touched"),
+    ("h_dnscache_miss", ["answer_from_dnscache"], "answer_from_dnscache: miss = nothing emitted, query kept, no valid entry (arbitrary ghost slot) has this type and name; hit = one answer, query consumed")):
+    G(name="srv_" + ent[2:], wip=ent.startswith("h_dnscache"), harness="h_iodined.c", entry=ent, enforce=fns, defs=["H_QMEM=1"], style="legacy", unwind=33, unwindset=["verif_strcmp.0:257", "answer_from_dnscache.0:5", "h_dnscache.0:5", "h_dnscache_miss.0:5"], cbmc_flags=SRV_FLAGS,
+      props={"C16": "all", "C05": "safety", "C14": "all"}, min_obl=10, timeout=900, cost=100, mem_gb=24, what=what, **SRV_SHRINK)
+
 LEVELS = {}
 TRUSTED_BASE = ["CBMC 6.11.0 (goto-cc front end, goto-instrument --dfcc contract instrumentation, symex)",
                 "kissat (SAT back end)", "gcc -E (expansion of spec macros inside loop contracts)"]
